@@ -6,6 +6,18 @@ VERIF = Path(__file__).resolve().parent.parent
 ALL = [f"C{i:02d}" for i in range(1, 20)]
 
 CLAIMED = {
+    "C09": dict(
+        text="sched/GenCache.tla models generator.run and its process-global cache (hit / miss+pending / nested body calls / finish+name) "
+             "and is model-checked (Memo, RunOnce, Distinct, NameStable, NameInjective, NoStalePending) over 4 generator kinds "
+             "(fresh, nesting, pass-through, recursive) x 4 parameter spellings (two of them equal) x 2 call forms, all call sequences "
+             "of length 3, which TLC also emits as cases; seeded sequences add optional/enum/nested/Prefixed/Scalar/Module-valued and "
+             "adversarial string parameters. Every sequence is replayed on real @generator functions whose bodies log themselves; "
+             "Trace_GenCache replays the cache discipline on the recorded calls and checks identity, single body execution, distinct "
+             "modules, name stability and uniqueness, a joint export, and that <<generator, parameter value>> has one name across all "
+             "traces of the batch (different orders and processes).",
+        note="Trusted: harness/props/c09.py incl. the canonical parameter encoding that defines 'equal parameters' independently of the "
+             "library's __eq__/__hash__; TLC. Name independence from the process is sampled (16 worker processes, shuffled orders), not exhaustive.",
+        ref="6 C09", technique="TLA+ state machine (GenCache) model-checked + TLC-enumerated call sequences replayed + TLC trace validation"),
     "C14": dict(
         text="api/Prefixed.tla defines the exact decimal value of a prefixed number over lib/BigNum.tla (digit-sequence arithmetic, "
              "self-checked by MC_BigNum against TLC's native integers on all small operands). For all 441 ordered prefix pairs x "
